@@ -16,7 +16,31 @@ MECHSETS = [['EXTERNAL'], ['EXTERNAL', 'DBUS_COOKIE_SHA1', 'ANONYMOUS'], ['DBUS_
 WRONG = ['wrong-flip', 'wrong-trunc1', 'wrong-trunc39', 'wrong-long', 'wrong-empty', 'wrong-othercookie', 'wrong-upper', 'malformed']
 
 
+def A(c, mech='', hx='none', who='empty'):
+    return {'c': c, 'mech': mech, 'hex': hx, 'who': who, 'resp': 'wrong', 'respkind': '', 'cookie': 0}
+
+
+def abandon_then_other(rng, allowed):
+    """an exchange is carried to OK and then abandoned (CANCEL / ERROR); another mechanism follows: nothing of the first
+    identity may survive"""
+    first = rng.choice(['EXTERNAL', 'EXTERNAL', 'ANONYMOUS'])
+    cmds = [A('auth', first, 'ok' if first == 'EXTERNAL' else rng.choice(['none', 'ok']), 'same' if first == 'EXTERNAL' else 'garbage')]
+    cmds.append(A(rng.choice(['cancel', 'error', 'cancel'])))
+    second = rng.choice(['ANONYMOUS', 'ANONYMOUS', 'EXTERNAL', 'OTHER'])
+    cmds.append(A('auth', second, rng.choice(['none', 'ok']) if second != 'EXTERNAL' else rng.choice(['ok', 'none']),
+                  rng.choice(['same', 'other', 'garbage']) if second == 'EXTERNAL' else 'garbage'))
+    for c in cmds:
+        if c['hex'] == 'none':
+            c['who'] = 'empty'
+    if rng.random() < 0.3:
+        cmds.append(A('data', '', 'ok', 'same'))
+    cmds.append(A('begin'))
+    return cmds
+
+
 def conversation(rng, allowed):
+    if rng.random() < 0.12:
+        return abandon_then_other(rng, allowed)
     cmds = []
     n = rng.choice([1, 2, 3, 4, 6, 9])
     in_cookie = False
